@@ -482,9 +482,9 @@ func init() {
 		Level: "exploration",
 		Rule: "A corpus of 32 requests against vanguard.test.v1.LibraryService and ContentService (HttpBody bodies and responses, client / server / bidi streams) (16 REST requests over all 13 bindings incl. nested / multi-segment variables, verbs, repeated and scalar bodies, response_body, escapes, an ill-typed parameter, wrong method, unknown route; RPC requests in gRPC, gRPC-Web, Connect POST and GET incl. a 405 and an unknown method) x 4 target configurations " +
 			"is run against 9 registrations of the same schema (generated code by name; fresh protodesc copy; descriptor set with its full import closure rebuilt (fresh descriptors for every imported type), also with a resolver that knows nothing; copy without parent file; resolver that knows nothing; resolver that knows only request types; dynamically typed google.api.http options; GlobalTypes resolver for a fresh copy) and against vanguardgrpc.NewTranscoder vs NewService-by-name over one grpc.Server; " +
-			"every variant's client- and backend-side semantic outcome must equal the generated-code variant's. Non-trivial = (request, target, variant) whose message types resolve to a different Go type than in the baseline.",
+			"every variant's client- and backend-side semantic outcome must equal the generated-code variant's. Drift: a schema whose content differs from the linked-in file of the same path (Book gets an extra field) must behave as the same content registered under another path (4 requests x 3 targets). Non-trivial = (request, target, variant) whose message types resolve to a different Go type than in the baseline.",
 		Assume:    []string{"messages are compared after decoding against the generated descriptors"},
-		Scenarios: []Scenario{{Name: "variants", Fn: c20Scenario, QuickBound: 0, ThoroughBound: 0}},
+		Scenarios: []Scenario{{Name: "variants", Fn: c20Scenario, QuickBound: 0, ThoroughBound: 0}, {Name: "drift", Fn: c20Drift, QuickBound: 0, ThoroughBound: 0}},
 	})
 }
 
@@ -687,4 +687,148 @@ func c20RESTMethod(verb, path string) string {
 		return "GetCheckout"
 	}
 	return ""
+}
+
+// ---- drift: a supplied schema whose CONTENT differs from a linked-in file of the same path.
+// The behaviour must follow the supplied content: it must be the same whether that content
+// is registered under the linked-in file's path / names or under another path.
+
+var (
+	c20DriftOnce sync.Once
+	c20DriftSame protoreflect.ServiceDescriptor // drifted content, path of the linked-in file
+	c20DriftElse protoreflect.ServiceDescriptor // the same content under another path
+	c20DriftErr  error
+)
+
+func c20DriftInit() {
+	c20DriftOnce.Do(func() {
+		gfd, err := protoregistry.GlobalFiles.FindFileByPath("vanguard/test/v1/library.proto")
+		if err != nil {
+			c20DriftErr = err
+			return
+		}
+		mk := func(path string) (protoreflect.ServiceDescriptor, error) {
+			fdp := protodesc.ToFileDescriptorProto(gfd)
+			fdp.Name = proto.String(path)
+			for _, m := range fdp.MessageType {
+				if m.GetName() == "Book" {
+					m.Field = append(m.Field, &descriptorpb.FieldDescriptorProto{Name: proto.String("subtitle"), JsonName: proto.String("subtitle"), Number: proto.Int32(100),
+						Type: descriptorpb.FieldDescriptorProto_TYPE_STRING.Enum(), Label: descriptorpb.FieldDescriptorProto_LABEL_OPTIONAL.Enum()})
+				}
+			}
+			fd, err := protodesc.NewFile(fdp, protoregistry.GlobalFiles)
+			if err != nil {
+				return nil, err
+			}
+			return fd.Services().ByName("LibraryService"), nil
+		}
+		if c20DriftSame, err = mk("vanguard/test/v1/library.proto"); err != nil {
+			c20DriftErr = err
+			return
+		}
+		c20DriftElse, c20DriftErr = mk("verif/drift/library_drifted.proto")
+	})
+}
+
+func c20Drift(c *xplor.Ctx) {
+	c20DriftInit()
+	if c20DriftErr != nil {
+		c.Fail("harness.setup", "building drifted schemas: %v", c20DriftErr)
+		return
+	}
+	type dreq struct {
+		name, method, target, body string
+		form                       wire.Form
+		rpc, codec, msg            string
+	}
+	reqs := []dreq{
+		{name: "rest-get-book", method: "GET", target: "/v1/shelves/1/books/2", form: wire.REST},
+		{name: "rest-create-book", method: "POST", target: "/v1/shelves/1/books", body: `{"title":"t","subtitle":"from the body"}`, form: wire.REST},
+		{name: "connect-json-create-book", form: wire.ConnectUnary, rpc: "CreateBook", codec: "json", msg: `{"parent":"shelves/1","book":{"title":"t","subtitle":"from the message"}}`},
+		{name: "grpcweb-proto-get-book", form: wire.GRPCWeb, rpc: "GetBook", codec: "proto", msg: `{"name":"shelves/1/books/2"}`},
+	}
+	q := reqs[c.Free("request", len(reqs))]
+	tgt := c.Free("target", 3)
+	tp := allProtoOrder[tgt]
+	codec := []string{"proto", "json", "json"}[tgt]
+	c.Attr("request", "drift:"+q.name)
+	c.Attr("target", tp.String())
+	run := func(sd protoreflect.ServiceDescriptor) string {
+		bookDesc := sd.Methods().ByName("GetBook").Output()
+		backendView := ""
+		handler := http.HandlerFunc(func(w http.ResponseWriter, r *http.Request) {
+			seen := drive.Capture(r)
+			seen.ReadBody(r.Body, nil)
+			pr := wire.ParseBackendRequest(r.Method, r.URL, seen.Header, seen.ContentLength, seen.Body)
+			method := r.URL.Path[strings.LastIndex(r.URL.Path, "/")+1:]
+			md := sd.Methods().ByName(protoreflect.Name(method))
+			if md != nil {
+				for _, m := range pr.Msgs {
+					backendView += canonMsg(pr.Codec, md.Input(), m) + ";"
+				}
+			}
+			book := dynamicpb.NewMessage(bookDesc)
+			book.Set(bookDesc.Fields().ByName("name"), protoreflect.ValueOfString("shelves/1/books/2"))
+			book.Set(bookDesc.Fields().ByName("subtitle"), protoreflect.ValueOfString("from the backend"))
+			sr := &wire.ServerResp{Form: world.ServerFormFor(pr.Form), Codec: pr.Codec, Msgs: [][]byte{Enc(pr.Codec, book)}}
+			out := sr.Encode()
+			for k, v := range out.Header {
+				w.Header()[k] = v
+			}
+			w.WriteHeader(out.Status)
+			_, _ = w.Write(out.Body)
+			for k, v := range out.Trailer {
+				w.Header()[http.TrailerPrefix+k] = v
+			}
+		})
+		tc, err := vanguard.NewTranscoder([]*vanguard.Service{vanguard.NewServiceWithSchema(sd, handler, vanguard.WithTargetProtocols(tp), vanguard.WithTargetCodecs(codec))})
+		if err != nil {
+			return "NewTranscoder error: " + err.Error()
+		}
+		var spec *drive.ReqSpec
+		if q.form == wire.REST {
+			spec = &drive.ReqSpec{Method: q.method, Target: q.target, Header: http.Header{}, ContentLength: -1}
+			if q.body != "" {
+				spec.Body = drive.NewBody([]byte(q.body))
+				spec.Header.Set("Content-Type", "application/json")
+			} else {
+				spec.NoBody = true
+			}
+		} else {
+			in := sd.Methods().ByName(protoreflect.Name(q.rpc)).Input()
+			spec = world.SpecFromClient(&wire.ClientReq{Form: q.form, Path: "/" + libSvc + "/" + q.rpc, Codec: q.codec, Msgs: [][]byte{Enc(q.codec, MkMsgOf(in, q.msg))}})
+		}
+		req, err := spec.Build(context.Background())
+		if err != nil {
+			return "build error: " + err.Error()
+		}
+		rec := drive.NewRecorder()
+		pi := drive.Serve(tc, rec, rec, req, spec.Body)
+		form := q.form
+		pr := wire.ParseClientResponse(form, rec.Status, rec.HeadHeaders(), rec.BodyBytes.Bytes(), rec.Trailers)
+		view := fmt.Sprintf("status=%d end=%d/%q|", rec.Status, pr.End.Code, pr.End.Message)
+		for _, m := range pr.Msgs {
+			if form == wire.REST {
+				view += canonJSON(m) + ";"
+			} else {
+				view += canonMsg(pr.Codec, bookDesc, m) + ";"
+			}
+		}
+		view += " || backend: " + backendView
+		if pi != nil {
+			view += " || PANIC " + pi.Value
+		}
+		return view
+	}
+	same, other := run(c20DriftSame), run(c20DriftElse)
+	c.AddEvaluations(1)
+	c.Nontrivial("drift|" + q.name + "|" + tp.String())
+	if same != other {
+		c.Attr("variant", "content differs from the linked-in file of the same path")
+		c.Fail("C20.variant-behaves-differently", "request %s toward %s/%s: a schema whose Book has an extra field 'subtitle'\n registered under another path:          %s\n registered under the linked-in file's path: %s", q.name, tp, codec, short(other), short(same))
+	}
+	if !strings.Contains(other, "subtitle") {
+		c.Fail("harness.setup", "the drift scenario does not exercise the extra field: %s", short(other))
+	}
+	c.Outcome("drift:" + strings.SplitN(same, " ", 2)[0])
 }
